@@ -387,10 +387,94 @@ def run_jobs(ws, features, jobs, workers=None, progress=True, need_playback=None
     return results
 
 
+def playback_direct(ws, job, md):
+    """Counterexample of a refuted harness without kani-driver: the same goto program once more through cbmc with
+    --trace; the values returned by kani::any_raw_* in the trace of a failed property are, in order, the byte vectors
+    of Kani's concrete playback (this is what kani-driver's test generator extracts).  Returns a list of
+    (class, description, test name, test source)."""
+    gdir = os.path.join(ws.dir, "goto")
+    os.makedirs(gdir, exist_ok=True)
+    out = os.path.join(gdir, job.name + ".trace.out")
+    steps = [
+        ["goto-cc", md["goto_file"], KANI_LIB_C, "-o", out],
+        ["goto-cc", out, "--function", md["mangled_name"], "-o", out],
+        ["goto-instrument", "--add-library", "--no-malloc-may-fail", out, out],
+        ["goto-instrument", "--generate-function-body-options", "assert-false-assume-false",
+         "--generate-function-body", ".*", "--drop-unused-functions", out, out],
+        ["goto-instrument", "--ensure-one-backedge-per-target", out, out],
+    ]
+    for st in steps:
+        rc, so, _ = sh(st, cwd=ws.hk, timeout=600)
+        if rc != 0:
+            return []
+    unwind = md.get("attributes", {}).get("unwind_value")
+    cmd = ["cbmc"] + CBMC_FLAGS + (["--unwind", str(unwind)] if unwind is not None else []) + \
+          [out, "--verbosity", "4", "--json-ui", "--trace"]
+    jout = os.path.join(gdir, job.name + ".trace.json")
+    shcmd = "ulimit -v %d; exec %s > %s 2>/dev/null" % (job.mem_gb * 1024 * 1024, " ".join("'%s'" % c for c in cmd), jout)
+    rc, _, dt = sh(["bash", "-c", shcmd], cwd=ws.hk, timeout=max(job.timeout, 600))
+    tests = []
+    try:
+        data = json.load(open(jout))
+    except Exception:
+        return []
+    finally:
+        for f in (out, jout):
+            try:
+                os.remove(f)
+            except OSError:
+                pass
+    results = None
+    for e in data:
+        if isinstance(e, dict) and "result" in e:
+            results = e["result"]
+    seen = set()
+    for r in results or []:
+        name = r.get("property", "")
+        cls = name.rsplit(".", 2)[-2] if name.count(".") >= 2 else ""
+        if cls == "reachability_check" or r.get("status") != "FAILURE" or not r.get("trace"):
+            continue
+        vals = []
+        for it in r["trace"]:
+            if it.get("stepType") != "assignment":
+                continue
+            lhs = it.get("lhs") or ""
+            fn = (it.get("sourceLocation") or {}).get("function") or ""
+            v = it.get("value") or {}
+            if lhs.startswith("goto_symex$$return_value") and fn.startswith("kani::any_raw_") and v.get("binary") and v.get("width"):
+                b = v["binary"]
+                w = int(v["width"])
+                if w % 8 or len(b) != w:
+                    continue
+                by = [int(b[i:i + 8], 2) for i in range(0, w, 8)]
+                vals.append(list(reversed(by)))     # little-endian target
+        key = json.dumps(vals)
+        desc = " ".join((r.get("description", "")).split())
+        m = re.match(r"\[(KANI_CHECK_ID_[^\]]*)\]\s*", desc)
+        if m:
+            desc = desc[m.end():]
+        if (key, cls == "cover") in seen:
+            continue
+        seen.add((key, cls == "cover"))
+        tn = "kani_concrete_playback_%s_%s" % (job.name, sha(key + desc))
+        body = "".join("        vec![%s],\n" % ", ".join(map(str, v)) for v in vals)
+        src = ("/// Test generated by vk for harness `%s` from the CBMC trace\n/// Check for `%s`: \"%s\"\n#[test]\nfn %s() {\n"
+               "    let concrete_vals: Vec<Vec<u8>> = vec![\n%s    ];\n    kani::concrete_playback_run(concrete_vals, %s);\n}"
+               % (job.name, cls, desc.replace("\n", " "), tn, body, job.name))
+        tests.append((cls, desc.strip('"'), tn, src))
+    return tests
+
+
 def playback_for(ws, features, res):
-    """Re-run a refuted harness through kani-driver to obtain the concrete playback unit test."""
+    """Concrete playback unit test(s) of a refuted harness: from the CBMC trace directly; kani-driver as fallback."""
+    if direct_available() and not os.environ.get("VERIF_KANI_PLAYBACK"):
+        mds = harness_metadata(ws)
+        if res.job.name in mds:
+            res.playback = playback_direct(ws, res.job, mds[res.job.name])
+            if [p for p in res.playback if p[0] != "cover"]:
+                return res
     r2 = run_job(ws, features, res.job)
-    res.playback = r2.playback
+    res.playback = r2.playback or res.playback
     if r2.status == "fail" and r2.failed:
         res.failed = r2.failed
     return res
